@@ -15,8 +15,11 @@ ASSUME = ['reference notion of legal/stable configuration (mc/refmodel.py) is DE
 
 
 def run(tier, seed):
+    # plus: larger charts in which a deep history state lies below an orthogonal state (its memory must not
+    # pick up states of sibling regions)
+    extra = [([(7, 8, 1)], {'require': 'hd-under-orth', 'schemes': ('asc',), 'final': False})]
     return schemes.run('C02', tier, seed, PLAN[tier], ['legal'], {'legal', 'stable', 'final'},
-                       RULE, ASSUME)
+                       RULE, ASSUME, extra_plans=extra)
 
 
 def replay(data):
